@@ -550,7 +550,11 @@ def gen_history(ctx, rng, run, length, ckp_budget):
             run.request(rng.randrange(3), ver, rng.random() < 0.7, items)
             n += 1
         elif x < 0.50:                                 # a creating operation on its own
-            run.request(rng.randrange(3), ver, False, [creating()])
+            c = creating()
+            who = rng.randrange(3)
+            if c['op'] == 'derive' and rng.random() < 0.8:
+                who = owner_of(tr, eng, c['bases'][0], rng)
+            run.request(who, ver, False, [c])
             n += 1
         elif x < 0.62:                                 # destroy something (often after activating it: refused)
             tgt = gen_target(rng, tr, allow_none=False, dead_bias=0.15)
@@ -658,27 +662,34 @@ def replay_events(run, events):
 def shrink(ctx, events, kind):
     """Greedy event removal while the direct oracle still reports a hit of the same kind."""
     def fails(evs):
+        """-> None, or (events as re-observed, first hit of that kind) when the oracle still fires"""
         eng = kdrv.Engine(workdir=ctx.work)
         try:
             run = Runner(NullCtx(), eng)
             try:
                 replay_events(run, evs)
             except Exception:
-                return False
-            return any(h[0].get('kind') == kind for h in run.hits)
+                return None
+            hs = [h for h in run.hits if h[0].get('kind') == kind]
+            return (hs[0][1]['history'], hs[0]) if hs else None
         finally:
             eng.close()
     cur = list(events)
-    budget = 120
-    i = 0
-    while i < len(cur) and budget > 0:
+    best = fails(cur)
+    if best is None:
+        return None
+    cur = best[0]
+    budget = 150
+    i = len(cur) - 2                      # the last event is the failing one; drop earlier events, latest first
+    while i >= 0 and budget > 0:
         cand = cur[:i] + cur[i + 1:]
         budget -= 1
-        if cand and fails(cand):
-            cur = cand
-        else:
-            i += 1
-    return cur
+        got = fails(cand) if cand else None
+        if got is not None:
+            best, cur = got, got[0]
+            i = min(i, len(cur) - 1)
+        i -= 1
+    return best
 
 
 class NullCtx:
@@ -700,7 +711,7 @@ def run(ctx):
         'SQLite AUTOINCREMENT semantics (sqlite_sequence persisted with the store) - modelled as a monotone counter, tied by K',
         'harness/kdrv.py + harness/c07.py request builders and the class projection of responses (classify)',
         'model bound: canonical decimal identifier strings; shipped default operation policy, client groups None (checked against kmip/core/policy.py every run)']
-    ctx.prove('props/C07.v')
+    ctx.prove('props/C07.v', extra_targets=['theories/Uid/Cases.v'])
 
     bad_pol = check_policy_assumption()
     if bad_pol:
@@ -749,8 +760,11 @@ def run(ctx):
         if sig.get('kind') not in seen_kinds and len(seen_kinds) < 3:
             seen_kinds.add(sig.get('kind'))
             try:
-                small = shrink(ctx, w['history'], sig.get('kind'))
-                w = dict(w, history=small, shrunk_from=len(w['history']))
+                got = shrink(ctx, w['history'], sig.get('kind'))
+                if got is not None:
+                    n0 = len(w['history'])
+                    sig, w, what = got[1]
+                    w = dict(w, shrunk_from=n0)
             except Exception as e:      # shrinking is best effort
                 w = dict(w, shrink_error=repr(e))
         ctx.violation(sig, w, what)
